@@ -318,6 +318,22 @@ RULES = [
     ('redefine-routine', 'define r begin print 1 end r define r 5'),
     ('redefine-routine', 'define r begin print 1 end r define r 5 define r begin print 2 end r'),
     ('redefine-routine', 'define round 5'),
+    # … also after a variable (an assignment, a loop's index or light variable) has taken the name
+    ('redefine-routine', 'define r begin print 1 end r assign r 5 define r begin print 2 end'),
+    ('redefine-routine', 'define r begin print 1 end r repeat with r from 1 to 2 begin print 0 end '
+                         'define r begin print 2 end r'),
+    ('redefine-routine', 'define r begin print 1 end r repeat all as r begin print 0 end define r begin print 2 end r'),
+    ('redefine-routine', 'repeat with round from 1 to 2 print round define round with x begin return 7 end '
+                         'print [round 2.5]'),
+    ('redefine-routine', 'assign sqrt 5 define sqrt with x begin return 1 end'),
+    # a macro is a constant: a loop may not make a variable of its name either
+    ('assign-to-macro', 'define m 5 repeat with m from 1 to 2 begin print m end'),
+    ('assign-to-macro', 'define m 5 repeat 3 with m cycle begin print m end'),
+    ('assign-to-macro', 'define m 5 repeat all as m begin print m end'),
+    ('assign-to-macro', 'define m 5 repeat in "a" as lamp with m from 1 to 2 begin print m end'),
+    ('assign-to-macro', 'define m 5 repeat group as m begin print m end'),
+    ('assign-to-macro', 'define m 5 define f begin repeat with m from 1 to 2 begin print m end end'),
+    ('redefine-macro', 'define m 5 repeat with m from 1 to 2 begin print m end define m 6 print m'),
     # … a built-in routine is a routine: its name cannot be defined again either
     ('redefine-routine', 'define round with x begin return {x * 100} end'),
     ('redefine-routine', 'print [round 2.6] define round with x begin return {x * 100} end print [round 2.6]'),
